@@ -214,6 +214,17 @@ package lisp
 //@   nopanic
 //@   property C06
 
+//@ func (*LEnv).ErrorCondition
+//@   requires rtOK(env)
+//@   loop 1 (rangeindex) invariant -1 <= rangeindex && rangeindex < len(v)
+//@   ensures  [is-error] result != nil && result.Type == LError
+//@   property C06
+
+//@ func (*LEnv).Error
+//@   requires rtOK(env)
+//@   ensures  [is-error] result != nil && result.Type == LError
+//@   property C06
+
 //@ func (*LEnv).checkLimits
 //@   requires rtOK(env) && env.Runtime.steps >= 0 && env.Runtime.steps < 9223372036854775807
 //@   ensures  [fast-path] ctx == nil && env.Runtime.maxSteps == 0 ==> result == nil && env.Runtime.steps == old(env.Runtime.steps)
@@ -339,3 +350,10 @@ package lisp
 //@   assert-at LoadFile [loads-in-root-env] arg0.parent == nil
 //@   assert-at LoadFile [loads-named-location] arg1 == args.Cells[0].Str
 //@   property C20
+
+// ---------------------------------------------------------------- singletons
+
+//@ axiom singletons : singletonNil != nil && singletonTrue != nil && singletonFalse != nil && singletonNil != singletonTrue && singletonNil != singletonFalse && singletonTrue != singletonFalse && singletonNil.Type == LSExpr && len(singletonNil.Cells) == 0 && singletonTrue.Type == LSymbol && singletonTrue.Str == TrueSymbol && singletonFalse.Type == LSymbol && singletonFalse.Str == FalseSymbol
+//@ frame writers(singletonNil) subset { init } property C09 C15
+//@ frame writers(singletonTrue) subset { init } property C09 C15
+//@ frame writers(singletonFalse) subset { init } property C09 C15
